@@ -1,4 +1,5 @@
 import VOPyVerif.Model.Basic
+import VOPyVerif.Model.RealLike
 /-!
 # Confidence-region updates (`vopy/confidence_region.py`, `vopy/design_space.py`), import-free model
 
@@ -62,6 +63,16 @@ def bcast (m : Nat) (s : Vec) : Option Vec :=
   else match s with
     | [a] => some (List.replicate m a)
     | _ => none
+
+/-- `L = mean - std * scale` of `RectangularConfidenceRegion.update`, one entry, over a `RealLike` carrier (the term
+`harness/translate.py` regenerates from the source; `Proofs/GenAgreeC14.lean`) -/
+def rectLowerF {α : Type} [RealLike α] (μ σ a : α) : α := μ - σ * a
+
+/-- `U = mean + std * scale`, one entry -/
+def rectUpperF {α : Type} [RealLike α] (μ σ a : α) : α := μ + σ * a
+
+/-- `RectangularConfidenceRegion.center`, one entry: `(lower + upper) / 2` -/
+def rectCenterF {α : Type} [RealLike α] (lo hi : α) : α := (lo + hi) / RealLike.ofNat 2
 
 /-- `L = mean - std * scale`, `U = mean + std * scale` -/
 def bounds (mean std scale : Vec) : Option (Vec × Vec) :=
